@@ -128,7 +128,8 @@ extern "C" void h_is_refinement_over()
 // C03-O2: verdict automaton of SoPlexBase<double>::_optimizeRational (solverational.hpp 36-536).
 // The real function is encoded; its callees are replaced by models with ARBITRARY outcomes:
 //   _performOptIRWrapper / _performUnboundedIRStable / _performFeasIRStable return arbitrary flags, restricted only by the
-//   contracts visible in their bodies (solverational.hpp 3370-3535): "stopped => no ray / no Farkas proof and no error",
+//   contracts of the two certificate tests, which are themselves obligations (C03-O2.unboundedIR.contract / .feasIR.contract in
+//   c03_rangetypes.cpp; a separate translation unit because here the two functions are replaced): "stopped => no ray / no Farkas proof and no error",
 //   "error => no ray" ; _setupBoostedSolverAfterRecovery and _isSolveStopped return scripted values; _storeBasis/_restoreBasis,
 //   setIntParam are recorded; every transformation (_lift, _project, _transformEquality, _storeLPReal, ...) is cut.
 // At most MAXR rounds of the outer loop are explored (longer executions are assumed away).
